@@ -8,7 +8,8 @@ Definition task_eqb (a b : task) : bool :=
   | TClientAuth m, TClientAuth n => m =? n
   | TChangePw, TChangePw => true
   | TServerPw u1 p1, TServerPw u2 p2 => (u1 =? u2) && (p1 =? p2)
-  | TClientKbdResp, TClientKbdResp => true
+  | TClientKbdResp a1, TClientKbdResp a2 => a1 =? a2
+  | TClientPkSign, TClientPkSign => true
   | TServerKbd u1, TServerKbd u2 => u1 =? u2
   | TServerKbdResp u1 p1, TServerKbdResp u2 p2 => (u1 =? u2) && (p1 =? p2)
   | TServerPk, TServerPk => true
@@ -39,13 +40,16 @@ Definition conn_eqb (a b : conn) : bool :=
   Z.eqb (authed a) (authed b) &&
   Bool.eqb (unsolicited a) (unsolicited b) &&
   Z.eqb (app_events a) (app_events b) &&
-  Bool.eqb (desync a) (desync b).
+  Bool.eqb (desync a) (desync b) &&
+  Bool.eqb (gated a) (gated b) &&
+  Bool.eqb (waiting a) (waiting b).
 
 Definition pair_eqb (a b : Z * Z) : bool := (fst a =? fst b) && (snd a =? snd b).
 
 (* ---- one observed step --------------------------------------------------------------------------------
    chunk: the packets delivered to the endpoint in one data_received call, (type, cls, malformed?);
-          type -1 stands for the peer's identification string
+          type -1 stands for the peer's identification string, type -2 for the application answering a suspended
+          credential callback (cls 0 = nothing to offer)
    obs  : every packet the endpoint was seen to send until nothing was runnable any more: (type, arg, seq),
           arg = the sequence number echoed by an UNIMPLEMENTED
    closed: the endpoint closed its transport *)
@@ -80,7 +84,7 @@ Fixpoint feed_chunk (s : st) (l : list (Z * Z * bool)) : st * bool :=
   match l with
   | [] => (s, false)
   | (t, cls, mal) :: r =>
-    let s1 := step s (if t =? -1 then EvVersion else EvRecv t cls) in
+    let s1 := step s (if t =? -1 then EvVersion else if t =? -2 then EvRelease cls else EvRecv t cls) in
     (* _process_kexinit and _process_userauth_request hand a coroutine back: asyncssh buffers the rest of the chunk
        until that task has finished, and every task that became ready before its completion callback runs first
        (the harness applications never suspend) - so such a packet inside a chunk is followed by a settle point *)
@@ -131,11 +135,11 @@ Fixpoint agree_len (s : st) (l : list ostep) (n : Z) : Z :=
   end.
 
 (* a whole observed session *)
-Definition chk_history (c : bool * list ostep) : bool :=
-  let '(server, steps) := c in chk_steps (init server) steps.
+Definition chk_history (c : bool * bool * list ostep) : bool :=
+  let '(server, gated_, steps) := c in chk_steps (init_gated server gated_) steps.
 
-Definition where_history (c : bool * list ostep) : Z :=
-  let '(server, steps) := c in agree_len (init server) steps 0.
+Definition where_history (c : bool * bool * list ostep) : Z :=
+  let '(server, gated_, steps) := c in agree_len (init_gated server gated_) steps 0.
 
 (* ---- one row of the generated table against the model ---------------------------------------------------
    prefix: the chunks of the untampered session delivered before the injection point; suffix: those after it;
@@ -163,12 +167,12 @@ Definition predicted_ok (s : st) (suffix : list (list (Z * Z * bool))) (e : Z * 
     | _ => verdict_eqb v VH || verdict_eqb v VL
     end.
 
-Definition chk_row (c : bool * list (list (Z * Z * bool)) * list (list (Z * Z * bool)) * list (Z * Z * verdict)) : bool :=
-  let '(server, prefix, suffix, row) := c in
-  let s := run_chunks (init server) prefix in
+Definition chk_row (c : bool * bool * list (list (Z * Z * bool)) * list (list (Z * Z * bool)) * list (Z * Z * verdict)) : bool :=
+  let '(server, gated_, prefix, suffix, row) := c in
+  let s := run_chunks (init_gated server gated_) prefix in
   forallb (predicted_ok s suffix) row.
 
-Definition bad_in_row (c : bool * list (list (Z * Z * bool)) * list (list (Z * Z * bool)) * list (Z * Z * verdict)) : list Z :=
-  let '(server, prefix, suffix, row) := c in
-  let s := run_chunks (init server) prefix in
+Definition bad_in_row (c : bool * bool * list (list (Z * Z * bool)) * list (list (Z * Z * bool)) * list (Z * Z * verdict)) : list Z :=
+  let '(server, gated_, prefix, suffix, row) := c in
+  let s := run_chunks (init_gated server gated_) prefix in
   map (fun e => fst (fst e)) (filter (fun e => negb (predicted_ok s suffix e)) row).
